@@ -334,6 +334,7 @@ def main():
     ap.add_argument('prop'); ap.add_argument('--tier', default=os.environ.get('VERIF_TIER', 'quick'), choices=['quick', 'thorough'])
     ap.add_argument('--only', default=''); ap.add_argument('--keep', action='store_true'); ap.add_argument('--jobs', type=int, default=int(os.environ.get('VERIF_JOBS', '14')))
     ap.add_argument('--no-evidence', action='store_true')
+    ap.add_argument('--replay', default='', help='replay record (json) written by an earlier run: re-run its inputs against the real code')
     a = ap.parse_args()
     t0 = time.time()
     spec = importlib.util.spec_from_file_location('obl', os.path.join(VERIF, 'obligations', a.prop + '.py'))
@@ -343,6 +344,21 @@ def main():
     if a.tier == 'thorough' and hasattr(mod, 'thorough_overrides'): obs = mod.thorough_overrides(obs)
     work = tempfile.mkdtemp(prefix=f'verif_{a.prop}_', dir=os.environ.get('VERIF_TMP', '/tmp'))
     run = Run(a.prop, a.tier, work, a.jobs)
+    if a.replay:
+        rec = json.load(open(a.replay)); rc = 2
+        try:
+            run.build_ir()
+            cand = [o for o in mod.OBLIGATIONS if o.name == rec['obligation']]
+            if not cand: print('unknown obligation', rec['obligation']); sys.exit(2)
+            o = cand[0]; prep = prepare(run, o, rec['variant'])
+            r = dict(dir=prep['dir'], variant=rec['variant'], counterexample=dict(inputs=rec['inputs']))
+            ok, text = replay(run, o, r)
+            print(text)
+            if ok: print(f"VIOLATION property={a.prop} replay={a.replay}"); rc = 1
+            elif ok is False: print('replay: the real code passes on these inputs'); rc = 0
+        finally:
+            shutil.rmtree(work, ignore_errors=True)
+        sys.exit(rc)
     findings = load_findings()
     rc_final = 0
     try:
